@@ -42,6 +42,8 @@ type c07Pair struct {
 	PlugVer  string            `json:"plugin_version,omitempty"`
 	Compress bool              `json:"compress"`
 	Stale    map[string][]byte `json:"stale_files,omitempty"`
+	Extra    []string          `json:"extra_args,omitempty"`    // e.g. -i /incB
+	PreInv   [][]string        `json:"prelude_extra,omitempty"` // additional earlier invocations for the session variant
 }
 
 func (p *c07Pair) spec(v *c07Variant) *simrt.Spec {
@@ -65,6 +67,10 @@ func (p *c07Pair) spec(v *c07Variant) *simrt.Spec {
 		cc.Plugins = []plugSpec{{Name: "rec", Path: "/plug/rec", Opts: "k=v,flag", Script: map[string]interface{}{"decode": true, "out_prefix": "$OUT", "files": files}, Version: p.PlugVer}}
 	}
 	cc.Prelude = v.Prelude
+	if len(v.Prelude) > 0 {
+		cc.Prelude = append(append([][]string{}, p.PreInv...), v.Prelude...)
+	}
+	cc.Extra = p.Extra
 	sp := cc.spec(1)
 	sp.MapMode = v.MapMode
 	sp.MapSites = v.MapSites
@@ -259,6 +265,9 @@ func c07Check(a *artefacts, tier string, seed uint64, replay string) int {
 		}
 		cfg := cfgs[i%len(cfgs)]
 		pair := &c07Pair{Prog: prog.Name, Files: prog.Files, Cwd: prog.Cwd, Main: prog.Main, Cfg: cfg}
+		if prog.Model != nil && i%7 == 6 {
+			c07IncludeDirs(pair, prog)
+		}
 		if pr.Chance(1, 2) {
 			pair.Plugin = true
 			pair.PlugVer = []string{"v0.4.2", "v0.4.1", "v0.5.0", ""}[pr.Intn(4)]
@@ -804,4 +813,59 @@ func c07Prelude(r *simrt.Rand, p *c07Pair) [][]string {
 		}
 	}
 	return out
+}
+
+// c07IncludeDirs moves one leaf file that the main file includes by a plain relative path out of
+// the tree into an include directory (/incB, given with -i), and puts a slightly different file of the
+// same name into another include directory (/incA) that only an earlier invocation of the session
+// variant uses: where an include is found must depend on this invocation's -i list only.
+func c07IncludeDirs(pair *c07Pair, prog *program) {
+	m := prog.Model
+	if m == nil || len(m.Files) < 2 {
+		return
+	}
+	for _, inc := range m.Files[0].Includes {
+		f := m.Files[inc]
+		if len(f.Includes) > 0 || strings.Contains(f.Path, "..") {
+			continue
+		}
+		// nobody else may include it (their relative paths would no longer resolve)
+		others := false
+		for k, g := range m.Files {
+			if k == 0 {
+				continue
+			}
+			for _, x := range g.Includes {
+				if x == inc {
+					others = true
+				}
+			}
+		}
+		if others {
+			continue
+		}
+		src := "/work/" + f.Path
+		body, ok := pair.Files[src]
+		if !ok {
+			continue
+		}
+		files := map[string][]byte{}
+		for k, b := range pair.Files {
+			if k != src {
+				files[k] = b
+			}
+		}
+		files["/incB/"+f.Path] = body
+		files["/incA/"+f.Path] = append(append([]byte{}, body...), []byte("const i32 ONLY_IN_THE_OTHER_INCLUDE_DIR = 1\n")...)
+		pair.Files = files
+		pair.Extra = []string{"-i", "/incB"}
+		rec := []string{}
+		if pair.Cfg.Rec {
+			rec = []string{"-r"}
+		}
+		inv := append([]string{"thriftgo", "-g", pair.Cfg.gArg()}, rec...)
+		inv = append(inv, "-o", "/prelude/inc", "-i", "/incA", pair.Main)
+		pair.PreInv = [][]string{inv}
+		return
+	}
 }
